@@ -121,6 +121,31 @@ class YAMLPath:
                     return False
                 continue
 
+            if (isinstance(this_segment[1], str)
+                and isinstance(that_segment[1], str)
+            ):
+                # The text of an escaped Key, Anchor, or Slice is data; a
+                # literal backslash in it is not an escape mark.
+                if (this_segment[0] != that_segment[0]
+                    or this_segment[1] != that_segment[1]
+                ):
+                    return False
+                continue
+
+            if (isinstance(this_segment[1], SearchTerms)
+                and isinstance(that_segment[1], SearchTerms)
+            ):
+                this_terms = this_segment[1]
+                that_terms = that_segment[1]
+                if (this_segment[0] != that_segment[0]
+                    or this_terms.inverted != that_terms.inverted
+                    or this_terms.method != that_terms.method
+                    or this_terms.attribute != that_terms.attribute
+                    or this_terms.term != that_terms.term
+                ):
+                    return False
+                continue
+
             cmp_this = YAMLPath._stringify_yamlpath_segments(
                 deque([this_segment]), PathSeparators.FSLASH)
             cmp_that = YAMLPath._stringify_yamlpath_segments(
